@@ -2557,3 +2557,45 @@ def _(ex, a):
     if isinstance(x, Ref) and isinstance(y, Ref):
         return x.cell is y.cell and tuple(x.path) == tuple(y.path)
     return x == y
+
+
+# ------------------------------------------------------------------ RefCell: whole-value operations
+@prim('RefCell::replace')
+def _(ex, a):
+    rc = ex.deref(a[0])
+    if rc.x['flag'] != 0:
+        raise RustPanic('RefCell already borrowed')
+    old = rc.f[0]
+    rc.f[0] = a[1]
+    return old
+
+
+@prim('RefCell::take')
+def _(ex, a):
+    rc = ex.deref(a[0])
+    if rc.x['flag'] != 0:
+        raise RustPanic('RefCell already borrowed')
+    old = rc.f[0]
+    if isinstance(old, Agg) and old.kind == 'Option':
+        rc.f[0] = NONE()
+        return old
+    raise Unsupported('RefCell::take of a non-Option value')
+
+
+@prim('RefCell::swap')
+def _(ex, a):
+    x, y = ex.deref(a[0]), ex.deref(a[1])
+    if x.x['flag'] != 0 or y.x['flag'] != 0:
+        raise RustPanic('RefCell already borrowed')
+    x.f[0], y.f[0] = y.f[0], x.f[0]
+    return UNIT()
+
+
+@prim('RefCell::into_inner')
+def _(ex, a):
+    return a[0].f[0]
+
+
+@prim('RefCell::get_mut')
+def _(ex, a):
+    return Ref(a[0].cell, tuple(a[0].path) + (0,))
